@@ -688,6 +688,9 @@ func ParseSInterP(buf string) frt.Tuple2[string, []string] {
 			}
 			c2 := buf[i]
 			res.WriteByte(c2)
+		} else if c == '%' {
+			// result is used as format string of Sprintf.
+			res.WriteString("%%")
 		} else if c == '{' {
 			i++
 			vbeg := i
